@@ -383,7 +383,8 @@ func (nz *normalizer) candidate(fn *types.Func) (res *helper) {
 		case *ast.DeferStmt:
 			call := x.Call
 			sel, isSel := ast.Unparen(call.Fun).(*ast.SelectorExpr)
-			if !top[x] || len(call.Args) != 0 || !isSel || !isPureExpr(info, sel.X) {
+			_, isIdent := ast.Unparen(call.Fun).(*ast.Ident) // defer cancel()
+			if !top[x] || len(call.Args) != 0 || !(isIdent || (isSel && isPureExpr(info, sel.X))) {
 				// only a tail call (`return H(..)`) can take this helper: there the defers stay defers
 				h.complexDefer = true
 			} else {
@@ -1288,6 +1289,27 @@ func (fc *fileCtx) inlineSite(cs *callSite) (string, bool) {
 	default:
 		for range pl.rvars {
 			targets = append(targets, "_")
+		}
+	}
+	// a newly declared target must not capture a package-level name the helper's body uses (the caller
+	// may name its variable after the function the helper calls: stagingPath := stagingPath(tree))
+	if direct && cs.lhs != nil && cs.tok == token.DEFINE {
+		hinfo0 := h.f.Info()
+		globals := map[string]bool{}
+		ast.Inspect(h.f.Body, func(n ast.Node) bool {
+			if id, ok := n.(*ast.Ident); ok {
+				if o := hinfo0.Uses[id]; o != nil {
+					if _, isPkg := o.(*types.PkgName); isPkg || (o.Pkg() != nil && o.Parent() == o.Pkg().Scope()) || o.Parent() == types.Universe {
+						globals[id.Name] = true
+					}
+				}
+			}
+			return true
+		})
+		for _, l := range cs.lhs {
+			if id, isId := l.(*ast.Ident); isId && info.Defs[id] != nil && globals[id.Name] {
+				direct = false
+			}
 		}
 	}
 	after := ""
